@@ -6,6 +6,20 @@ ALL = ["C%02d" % i for i in range(1, 21)]
 
 # id -> (technique, level text, level_note, design_ref)
 CLAIMS = {
+ "C02": ("Lean 4 refinement proof (brush's result-value control flow vs bash's global-counter semantics) + three-way correspondence (brush, bash, both models)",
+         "Proof: Model/Flow.lean mirrors interp.rs (lists, and-or, `!`, if, while/until, for, case with ;; ;& ;;&, groups, subshells, "
+         "function calls, break/continue/return/exit, set -e) arm by arm; Spec/FlowBash.lean is bash's mechanism (loop_level/breaking/"
+         "continuing counters, return/exit as pending jumps). Proofs/FlowRefine.lean proves by induction on fuel, for all six mutually "
+         "recursive interpreter functions, that on every program inside the scope guard (break/continue counts between 1 and the loops of "
+         "the same function/subshell) brush's run and bash's run produce the same trace, the same `$?` after every construct and the same "
+         "exit status (program_refines_bash_partial), for any nesting depth; the unguarded statement is refuted (flow_full_cex) and "
+         "recorded as findings. Tie: every run executes an exhaustive family + seeded random programs with scripted leaves in brush and "
+         "bash and compares stdout trace + exit status with both Lean models.",
+         "Trusted: Lean kernel; propext/Classical.choice/Quot.sound; Lean compiler for drv; bash 5.2.15 as oracle (the Lean bash "
+         "semantics is validated against it on every case; oracle_mismatch is reported). Modelled, not verified: tokenizer/parser "
+         "(programs are rendered to text and parsed by the real parser on every case), expansion of leaf commands, async plumbing. "
+         "Runs that do not terminate are outside the theorem (fuel).",
+         "DESIGN.md §6 C02, shared Flow model"),
  "C20": ("Lean 4 invariant proof over op sequences + model/implementation correspondence",
          "Proof: Model/History.lean mirrors History::{import,add,remove_nth_item,clear,flush}, add_to_history, save_history and "
          "the history builtin; Props/C20.lean proves, for every operation sequence of any length over any number of sessions, "
